@@ -193,6 +193,26 @@ void env_free_chld(ev_child *c)
 	if (c == &env_chld_obj[3]) env_chld_used[3] = 0;
 }
 
+/* ---- task watcher allocation: make_task_pool() hands out one malloc'ed array threaded into a free
+ * list; with several tasks every `t->' access then is an access at a symbolic offset into that
+ * one object.  Harnesses with more than one task replace make_task_pool (goto-instrument
+ * --replace-calls) by this chain of separate objects; make_task()/free_task() only ever
+ * follow ->next.  At most 4 tasks, one pool. */
+static struct _task_s env_task_obj0, env_task_obj1, env_task_obj2, env_task_obj3;
+static int env_task_pools;
+_task_t env_make_task_pool(size_t n)
+{
+	if (n > 4U || env_task_pools++) {
+		env_overflow = 1;
+		return NULL;
+	}
+	env_task_obj0.next = n > 1U ? &env_task_obj1 : NULL;
+	env_task_obj1.next = n > 2U ? &env_task_obj2 : NULL;
+	env_task_obj2.next = n > 3U ? &env_task_obj3 : NULL;
+	env_task_obj3.next = NULL;
+	return &env_task_obj0;
+}
+
 /* ---- process / file stand-ins */
 /* the spawn log keeps the most recent request only (scalars: no symbolic array index) */
 struct env_spawn_s {
